@@ -204,7 +204,8 @@ func foldingSound(src, dump *m.Node, stateless map[string]bool, engineSays ...fu
 		if !ok {
 			return fmt.Sprintf("%s was folded to %s, but evaluating it (unoptimized) fails", m.Render(src), m.RenderVal(dump.Val))
 		}
-		if !m.EqualVal(v, dump.Val) && fmt.Sprintf("%T|%v", v, v) != fmt.Sprintf("%T|%v", dump.Val, dump.Val) {
+		// (Dump prints an integer of whatever Go type as the same digits: compare the numbers)
+		if !m.EqualVal(normalise(v), normalise(dump.Val)) {
 			return fmt.Sprintf("%s was folded to %s, evaluated (unoptimized) it gives %v (%T)", m.Render(src), m.RenderVal(dump.Val), v, v)
 		}
 		return ""
